@@ -78,7 +78,7 @@ CHECKS = {
   text=("Lean theorems for every finite string of Unicode scalar values and every escape table satisfying the decidable side condition "
         "tableOK (re-proved by `decide` for the table regenerated from ESCAPE_SEQUENCES on each run); the executable model of "
         "encode_token/decode_token/quote/unquote is tied to the code by a differential correspondence stream (all short strings over the "
-        "structural alphabet, code points, biased random strings), and the oracle searches the real parser for a failing argument. The embedding shapes include a query built step by step with its encoded form looked at in between."),
+        "structural alphabet, code points, biased random strings), and the oracle searches the real parser for a failing argument. Injectivity of the token and of the list-of-lists encoder are corollaries (real_injective, real_injectiveLL). The embedding shapes include a query built step by step with its encoded form looked at in between."),
   note=("Trusted: Lean kernel (+propext/Quot.sound/Classical.choice), harness/extract.py, the correspondence harness, CPython str.replace/"
         "urllib.quote/unquote as modelled in LiquerModel/Text.lean (validated differentially, not proved), pyparsing for the embedding oracle."),
  ),
